@@ -141,3 +141,15 @@ func init() {
 			{Name: "index", Run: "^TestTableIndex$", Shards: [2]int{2, 4}},
 		}})
 }
+
+func init() {
+	reg(PropCfg{ID: "C12", Pkg: "c12", Level: "exploration",
+		Rule: "(value, target type) pairs over nested lists/objects/any-objects/options/scalars (depth <= 3 quick / 4 thorough): conforming by construction, conforming after a permitted scalar conversion, and near misses at a generator-known path (wrong leaf kind, missing/extra field, wrong element, none/null where not allowed, list where object ...); three delivery routes: (api) DeepCast in both value libraries with allowCasts true/false, (json) TypeAwareUnmarshalValue, (prog) the value arrives as 'any' from a host function or parse_json and crosses 'as T' / an annotated let inside try/catch followed by typed uses of every leaf, on both backends, (host) SpawnSync with conforming / non-conforming arguments and declared return types; own oracle predicates (convertible / conforms) written from the property; exhaustive near-miss table of 20 types x 16 near-miss kinds; non-trivial = type depth >= 2 or a near miss at depth >= 1; distinct by value + type + route",
+		Jobs: []Job{
+			{Name: "table", Run: "^TestTableNearMiss$", Shards: [2]int{2, 4}},
+			{Name: "api", Run: "^TestAPI$", Checks: [2]int{10000, 200000}, Shards: [2]int{2, 8}},
+			{Name: "json", Run: "^TestJSON$", Checks: [2]int{5000, 100000}, Shards: [2]int{2, 8}},
+			{Name: "prog", Run: "^TestProg$", Checks: [2]int{150, 2000}, Shards: [2]int{6, 16}},
+			{Name: "host", Run: "^TestHost$", Checks: [2]int{100, 1000}, Shards: [2]int{4, 8}},
+		}})
+}
